@@ -78,6 +78,17 @@ def one_case(args):
             p.payload = bytes(8000)         # 2207 large payloads: more than 2^24 payload bytes in total
         data = frame.serialize(fp)
         pkts = [(p.f, len(p.payload)) for p in fp]
+    elif case % 4000 == 1:
+        # scale (stave level): an outer-barrel link with > 1200 readout frames, more than 65 536 chip trailers in one run
+        conf = True
+        mode = ["check", "all", "its-stave"]
+        s = gen.generate(rng.getrandbits(40), barrels=["OL"], n_links=1, hbfs=520, max_triggers=4, max_pages=3, hits="few", p_nodata=0.0)
+        data = s.serialize()
+        pk = s.all_packets()
+        pkts = [(p.full, len(p.payload(s.fmt))) for p in pk]
+        flags = [fl for fr in s.frames for fl in fr["flags"]]
+        frames_truth = (s, flags)
+        scale = True
     elif conf:
         s = gen.generate(rng.getrandbits(40), target_packets=rng.choice([None, None, 100, 200, 101]) if rng.random() < 0.3 else None)
         data = s.serialize()
@@ -96,7 +107,7 @@ def one_case(args):
         data = frame.serialize(fp)
         pkts = [(p.f, len(p.payload)) for p in fp]
     flt = None
-    if mode == [] or rng.random() < 0.4:
+    if (mode == [] or rng.random() < 0.4) and not (scale and conf):
         f0 = rng.choice(pkts)[0]
         kind = rng.choice(["link", "fee", "stave"])
         flt = (kind, {"link": f0["link_id"], "fee": f0["fee_id"], "stave": f0["fee_id"] & 0x703F}[kind])
